@@ -3,6 +3,7 @@
 C ::= ('single', (v, ...)) | ('range', lo, hi) | ('size', lo, hi) | ('alpha', 'chars')
     | ('withc', ((field, 'present' | 'absent'), ...))
     | ('and', (C, ...)) | ('or', (C, ...)) | ('excl', (C, ...))        # non-empty operand lists only
+    | ('chain', (C, ...))     # a derivation chain: T.subtype(C1).subtype(C2)...; denotes the intersection
 Values are plain python: int, str, bytes, (nbits, int) for BIT STRING, list for SEQUENCE OF, dict for SEQUENCE.
 ('excl', Cs) admits exactly the values that none of the Cs admits (pyasn1's ConstraintsExclusion)."""
 
@@ -29,7 +30,7 @@ def admits(C, value):
             if (want == 'present') != present:
                 return False
         return True
-    if k == 'and':
+    if k in ('and', 'chain'):
         return all(admits(c, value) for c in C[1])
     if k == 'or':
         return any(admits(c, value) for c in C[1])
@@ -53,7 +54,7 @@ def to_pyasn1(C):
         return pc.WithComponentsConstraint(*[
             (f, pc.ComponentPresentConstraint() if w == 'present' else pc.ComponentAbsentConstraint())
             for f, w in C[1]])
-    if k == 'and':
+    if k in ('and', 'chain'):
         return pc.ConstraintsIntersection(*[to_pyasn1(c) for c in C[1]])
     if k == 'or':
         return pc.ConstraintsUnion(*[to_pyasn1(c) for c in C[1]])
@@ -73,7 +74,7 @@ def boundaries(C, out=None):
     elif k in ('range', 'size'):
         out.add(C[1])
         out.add(C[2])
-    elif k in ('and', 'or', 'excl'):
+    elif k in ('and', 'or', 'excl', 'chain'):
         for c in C[1]:
             boundaries(c, out)
     return out
@@ -81,6 +82,6 @@ def boundaries(C, out=None):
 
 def show(C):
     k = C[0]
-    if k in ('and', 'or', 'excl'):
+    if k in ('and', 'or', 'excl', 'chain'):
         return '%s(%s)' % (k, ', '.join(show(c) for c in C[1]))
     return '%s%r' % (k, C[1:] if len(C) > 2 else C[1])
